@@ -212,6 +212,31 @@ func GenSchema(t *rapid.T, p Profile) *hx.Schema {
 	if p.Mutation && rapid.Bool().Draw(t, "hasMutation") {
 		s.Types = append(s.Types, mkObject("Mutation", false))
 	}
+	// covariant narrowing: an implementer may declare an interface field with an abstract type as
+	// one of that type's concrete types (the definitions of one field then differ between implementers)
+	for _, td := range s.Types {
+		if td.Kind != hx.KObject {
+			continue
+		}
+		for _, in := range td.Interfaces {
+			for _, f := range ifaceDefs[in].Fields {
+				base := f.Type.BaseName()
+				if k := s.KindOf(base); k != hx.KInterface && k != hx.KUnion {
+					continue
+				}
+				poss := s.PossibleTypes(base)
+				if len(poss) == 0 || rapid.Bool().Draw(t, td.Name+in+f.Name+"narrow") {
+					continue
+				}
+				of := td.Field(f.Name)
+				tr := of.Type
+				for tr.List != nil {
+					tr = tr.List
+				}
+				tr.Name = rapid.SampledFrom(poss).Draw(t, td.Name+in+f.Name+"narrowTo")
+			}
+		}
+	}
 	return s
 }
 
